@@ -680,6 +680,53 @@ func init() {
 		fmt.Fprintf(&e.out, "def merge_append : List String := %s\n", lst(callShape("nodeReservationRestoreStateData", "mergeReservationAllocations", "appendAllocated")))
 		fmt.Fprintf(&e.out, "def filter_append : List String := %s\n", lst(callShape("Plugin", "Filter", "appendAllocated")))
 
+		// ---- extension 4: WHICH fields the restore-state helpers are handed (struct FIELD names only; local variable names
+		// are recorded as "_" so that a rename stays silent) ----
+		var operand func(x ast.Expr) string
+		operand = func(x ast.Expr) string {
+			switch v := x.(type) {
+			case *ast.SelectorExpr:
+				return v.Sel.Name
+			case *ast.Ident:
+				if v.Name == "true" || v.Name == "false" || v.Name == "nil" {
+					return v.Name
+				}
+				return "_"
+			case *ast.IndexExpr:
+				return operand(v.X) + "[]"
+			case *ast.CallExpr:
+				var as []string
+				for _, a := range v.Args {
+					as = append(as, operand(a))
+				}
+				return selName(v.Fun) + "(" + strings.Join(as, ",") + ")"
+			}
+			return "?"
+		}
+		operands := func(recv, name, callee string) []string {
+			var out []string
+			fd := e.funcDecl(d, recv, name)
+			if fd == nil {
+				e.fail("%s.%s not found", recv, name)
+				return out
+			}
+			ast.Inspect(fd.Body, func(n ast.Node) bool {
+				if c, ok := n.(*ast.CallExpr); ok && selName(c.Fun) == callee {
+					var as []string
+					for _, a := range c.Args {
+						as = append(as, operand(a))
+					}
+					out = append(out, strings.Join(as, ","))
+				}
+				return true
+			})
+			return out
+		}
+		fmt.Fprintf(&e.out, "def merge_subtract_operands : List String := %s\n", lst(operands("nodeReservationRestoreStateData", "mergeReservationAllocations", "subtractAllocated")))
+		fmt.Fprintf(&e.out, "def merge_append_operands : List String := %s\n", lst(operands("nodeReservationRestoreStateData", "mergeReservationAllocations", "appendAllocated")))
+		fmt.Fprintf(&e.out, "def filter_append_operands : List String := %s\n", lst(operands("Plugin", "Filter", "appendAllocated")))
+		fmt.Fprintf(&e.out, "def allocate_append_operands : List String := %s\n", lst(operands("Plugin", "allocate", "appendAllocated")))
+
 		// ---- extension 3: the informer transformer and the allocation result in the cycle state ----
 		// apis/extension DeprecatedDeviceResourcesMapper: deprecated name -> current name (symbol names)
 		var mapper []string
